@@ -124,7 +124,7 @@ POP_BASES = {
     'nested': rp.Comp([rp.Comp([rp.G(1), rp.P(1)]), rp.H(1)]),
 }
 POP_OPS = ['n1', 'n2', 'n3', 'dims', 'dims0', 'pnames0', 'wrap', 'wrapfix',
-           'fixlast', 'release', 'sel']
+           'fixlast', 'release', 'sel', 'seldup']
 
 
 def check_pop(m, viol, lab):
@@ -148,6 +148,14 @@ def check_pop(m, viol, lab):
         viol.append({'sub': 'pop_agree', 'message': 'population model counts / '
                      'names disagree (%s)' % lab, 'expected': exp,
                      'observed': facts, 'behaviour': 'pop_agree'})
+        return None
+    if len(set(names)) != len(names):
+        viol.append({'sub': 'pop_distinct', 'message': 'population model reports the '
+                     'same name for several parameters (%s)' % lab,
+                     'expected': 'pairwise distinct names',
+                     'observed': sorted(n_ for n_ in set(names)
+                                        if names.count(n_) > 1),
+                     'behaviour': 'pop_distinct'})
         return None
     # the model accepts a vector of that length and returns gradients of that length
     top = np.array(vals.reals('c17.top', n, 0.6, 1.4, 0))
@@ -214,6 +222,11 @@ def w_pop_history(case):
                 full = m.get_population_model().get_parameter_names()
                 m.fix_parameters({k: None for k in full})
                 fixed_names = set()
+        elif op == 'seldup':
+            # a pair given twice with another pair of the same dimension in between
+            if isinstance(m, chi.CovariatePopulationModel) and \
+                    m.n_parameters() - m.n_covariates() >= 2 * m.n_dim():
+                m.set_population_parameters([[0, 0], [1, 0], [0, 0]])
         elif op == 'sel':
             # (a reduced wrapper does not offer this call; reaching through to the
             # wrapped model behind the wrapper's back is not a reconfiguration of
@@ -387,6 +400,72 @@ def w_objects(case):
             viol.append({'sub': 'outputs', 'message': 'output names / count '
                          'disagree', 'expected': pm.get_n_outputs(),
                          'observed': pm.get_output_names()})
+    elif kind == 'free_reduced':
+        # a user-made ReducedMechanisticModel with every parameter free (never
+        # fixed, or fixed and released) handed to a likelihood / predictive model /
+        # controller; names are asked for repeatedly
+        rm = chi.ReducedMechanisticModel(ToyModel(2, 1))
+        if case['released']:
+            rm.fix_parameters({'p0': 1.0})
+            rm.fix_parameters({'p0': None})
+        if case['obj'] == 'll':
+            o = chi.LogLikelihood(rm, [chi.GaussianErrorModel()], [1.0, 2.0],
+                                  [0.2, 0.9])
+            names_f, n_f = o.get_parameter_names, o.n_parameters
+        elif case['obj'] == 'pred':
+            o = chi.PredictiveModel(rm, [chi.GaussianErrorModel()])
+            names_f, n_f = o.get_parameter_names, o.n_parameters
+        else:
+            o = chi.ProblemModellingController(rm, [chi.GaussianErrorModel()])
+            o.set_data(pd.DataFrame({'ID': [1, 1], 'Time': [0.3, 1.1],
+                                     'Observable': ['o0'] * 2,
+                                     'Value': [1.3, 2.1]}))
+            names_f, n_f = o.get_parameter_names, o.get_n_parameters
+        seen = [list(names_f()) for _ in range(3)]
+        if seen[0] != seen[1] or seen[1] != seen[2] or len(seen[2]) != n_f() or \
+                list(rm.parameters()) != ['p0', 'p1']:
+            viol.append({'sub': 'free_reduced', 'message': 'names reported '
+                         'repeatedly by a %s built from a reduced mechanistic model '
+                         'with all parameters free change / disagree with the count, '
+                         'or the user\'s model was renamed' % case['obj'],
+                         'expected': [n_f(), ['p0', 'p1']],
+                         'observed': [seen, list(rm.parameters())],
+                         'behaviour': 'free_reduced'})
+        else:
+            o.fix_parameters({'p1': 0.8})
+            agree('%s from a free reduced model after fix_parameters' % case['obj'],
+                  n_f(), names_f())
+    elif kind == 'ctrl_refit':
+        # controller with a population model: data, fix a population parameter,
+        # then data with another number of individuals
+        c = chi.ProblemModellingController(ToyModel(2, 1), chi.GaussianErrorModel())
+
+        def frame(n):
+            return pd.DataFrame([{'ID': i + 1, 'Time': t, 'Observable': 'o0',
+                                  'Value': 1.0 + 0.3 * i + t}
+                                 for i in range(n) for t in (0.3, 1.1)])
+        c.set_population_model(popbuild.build(case['pop'], None))
+        c.set_data(frame(case['n_first']), output_observable_dict={'o0': 'o0'})
+        if case['fix'] is not None:
+            nm = c.get_parameter_names()
+            c.fix_parameters({nm[case['fix']]: 0.9})
+        c.set_data(frame(case['n_second']), output_observable_dict={'o0': 'o0'})
+        n = c.get_n_parameters()
+        agree('controller after data / fix / data', n, c.get_parameter_names())
+        c.set_log_prior(pints.ComposedLogPrior(*[
+            pints.GaussianLogPrior(1, 2) for _ in range(n)]))
+        post = c.get_log_posterior()
+        N = post.n_parameters()
+        x = np.array(vals.reals('c17.ctrl', N, 0.6, 1.4, 0))
+        s_, g = post.evaluateS1(x)
+        agree('controller posterior after data / fix / data', N,
+              list(post.get_parameter_names()), True, len(g))
+        top = [i for i in post.get_id() if i is None]
+        if len(top) != n:
+            viol.append({'sub': 'ctrl_refit', 'message': 'top-level entries of the '
+                         'posterior do not match the controller\'s parameters '
+                         'after data / fix / data', 'expected': n,
+                         'observed': len(top), 'behaviour': 'obj_agree'})
     elif kind == 'shared_em':
         # one error model instance given for several outputs
         em = chi.GaussianErrorModel() if case['em'] == 'G' else \
@@ -579,6 +658,17 @@ def build(tier, seed):
                 [{'p0': 1.0}, {'p0': None}]):
         objs.append({'kind': 'pred', 'ops': ops})
         objs.append({'kind': 'pred', 'ops': ops, 'outputs': ['o1', 'o0']})
+    for obj in ('ll', 'pred', 'ctrl'):
+        for released in (False, True):
+            objs.append({'kind': 'free_reduced', 'obj': obj, 'released': released,
+                         'ops': []})
+    for pop in (rp.Comp([rp.H(1), rp.G(1), rp.P(1)]), rp.Comp([rp.G(1), rp.H(2)]),
+                rp.H(3), rp.Comp([rp.G(2), rp.P(1)])):
+        n_top1 = rp.n_top(pop, 1)
+        for n_first, n_second in ((3, 2), (2, 3), (1, 3), (2, 2)):
+            for fix in (None, -1, -2):
+                objs.append({'kind': 'ctrl_refit', 'pop': pop, 'n_first': n_first,
+                             'n_second': n_second, 'fix': fix, 'ops': []})
     for obj in ('ll', 'pred', 'ctrl'):
         for em in ('G', 'CM'):
             for k in (2, 3):
